@@ -1,4 +1,4 @@
-//! C10 — sorting and order queries (flat / 1-D forms; the n-D `axis = k` forms wait for ArrModel.Axis).
+//! C10 — sorting and order queries: flat forms, and every axis (both spellings) of n-D arrays through apply_along_axis.
 //!
 //! ops (all on explicit integer arrays `shape:elems`, value protocol on i64 tags with duplicates):
 //!   sort    <arr> <axis> <kind>        axis = none | int ; kind = none | e:<Variant> | s:<hex of &str> | o:<hex of String>
@@ -74,6 +74,29 @@ fn words(alpha: i64, len: usize) -> Vec<Vec<i64>> {
     out
 }
 
+/// `calc_min_run`
+fn min_run(mut n: usize) -> usize { let mut r = 0; while n >= 32 { r |= n & 1; n >>= 1; } n + r }
+/// lane lengths <= max at which some merge pass of the run-merging sort gets a right run of exactly one element
+fn one_element_right_run_lengths(max: usize) -> Vec<usize> {
+    let mut out = vec![];
+    for n in 2..=max {
+        let mut size = min_run(n);
+        let mut hit = false;
+        while size < n && !hit {
+            let mut left = 0;
+            while left < n {
+                let mid = (n - 1).min(left + size - 1);
+                let right = (left + 2 * size - 1).min(n - 1);
+                if mid < right && right - mid == 1 { hit = true; }
+                left += 2 * size;
+            }
+            size *= 2;
+        }
+        if hit { out.push(n); }
+    }
+    out
+}
+
 fn gen(tier: &str, seed: u64, out: &mut dyn FnMut(String)) {
     let thorough = tier == "thorough";
     let mut rng = Rng::new(seed);
@@ -135,6 +158,62 @@ fn gen(tier: &str, seed: u64, out: &mut dyn FnMut(String)) {
             let toks: Vec<String> = w.iter().map(|&x| if x == 2 { "n".to_string() } else { x.to_string() }).collect();
             let a = format!("{}:{}", len, toks.join(","));
             for kd in ["none", "true"] { out(format!("argmax_f {a} none {kd}")); out(format!("argmin_f {a} none {kd}")); }
+        }
+    }
+
+    // (ii-e) run-merging boundary lengths: lanes where some merge pass meets a ONE-element right run (first at 528),
+    //        an arm no length <= 130 reaches
+    for (bi, n) in one_element_right_run_lengths(if thorough { 2000 } else { 1000 }).into_iter().enumerate() {
+        // (the list-backed model is quadratic: beyond 1000 every third such length, one content)
+        if n > 1000 && bi % 3 != 0 { continue; }
+        for p in [2usize, 5] {
+            if n > 1000 && p == 2 { continue; }
+            let v = pattern(p, n, &mut rng);
+            out(format!("sort {} none e:Stable", arr1(&v)));
+        }
+    }
+
+    // (ii-f) axis forms: every axis, in both spellings, of every shape of rank <= 4 with axes of length 1..3
+    //        (+ rank 5 and longer lanes), duplicate-heavy and distinct contents
+    let mut axis_shapes = shapes(1, 4, 1, 3);
+    axis_shapes.extend(vec![vec![2, 2, 2, 2, 2], vec![1, 2, 1, 2, 3], vec![40, 3], vec![3, 40], vec![2, 35, 2], vec![2, 2, 70], vec![64, 2], vec![5, 4, 6]]);
+    if thorough { axis_shapes.extend(shapes(5, 5, 1, 2)); axis_shapes.extend(vec![vec![3, 130], vec![100, 2, 2], vec![4, 4, 4, 4], vec![2, 600]]); }
+    for (si, s) in axis_shapes.iter().enumerate() {
+        let n: usize = s.iter().product();
+        let rank = s.len() as isize;
+        let dup: Vec<i64> = (0..n).map(|_| rng.range(0, 2)).collect();
+        let scr: Vec<i64> = { let q = rng.perm(n); q.iter().map(|&j| j as i64).collect() };
+        let (a_dup, a_scr) = (arr_shaped(s, &dup), arr_shaped(s, &scr));
+        for k in 0..rank {
+            for ax in [k, k - rank] {
+                for kd in &enum_kinds { out(format!("sort {a_dup} {ax} {kd}")); }
+                out(format!("sort {a_scr} {ax} {}", enum_kinds[(si + k as usize) % 4]));
+                out(format!("argsort {a_dup} {ax} {}", enum_kinds[(si + k as usize) % 4]));
+                out(format!("argsort {a_dup} {ax} {}", enum_kinds[(si + k as usize + 1) % 4]));
+                out(format!("argsort {a_scr} {ax} {}", enum_kinds[(si + k as usize + 2) % 4]));
+                for kdim in ["none", "true", "false"] {
+                    out(format!("argmax {a_dup} {ax} {kdim}")); out(format!("argmin {a_dup} {ax} {kdim}"));
+                }
+                out(format!("argmax {a_scr} {ax} true")); out(format!("argmin {a_scr} {ax} none"));
+                out(format!("unique {a_dup} {ax}")); out(format!("unique {a_scr} {ax}"));
+            }
+        }
+        // string selector with an axis
+        out(format!("sort {a_dup} {} s:{}", rank - 1, hex("STABLE")));
+        out(format!("argsort {a_dup} 0 o:{}", hex("HeapSort")));
+    }
+    // zero-length axes and axes outside the rank (error values, never a panic)
+    for s in [vec![0usize], vec![0, 3], vec![2, 0], vec![2, 0, 3], vec![3], vec![2, 3], vec![2, 3, 2], vec![2, 1, 2, 2]] {
+        let n: usize = s.iter().product();
+        let v: Vec<i64> = (0..n).map(|_| rng.range(0, 3)).collect();
+        let a = arr_shaped(&s, &v);
+        let rank = s.len() as isize;
+        let mut axes: Vec<isize> = vec![rank, rank + 1, -rank - 1, -rank - 2, 7, -9];
+        if n == 0 { axes.extend(0..rank); axes.extend((0..rank).map(|k| k - rank)); }
+        for ax in axes {
+            out(format!("sort {a} {ax} e:Stable")); out(format!("sort {a} {ax} e:Quicksort")); out(format!("argsort {a} {ax} e:Heapsort"));
+            out(format!("argmax {a} {ax} none")); out(format!("argmax {a} {ax} true")); out(format!("argmin {a} {ax} false"));
+            out(format!("unique {a} {ax}"));
         }
     }
 
@@ -261,6 +340,9 @@ fn main() {
         rule: "exhaustive: every lane over {0,1,2} of length<=6 (7 thorough), over {0..3} of length<=4, every permutation of 0..n n<=6 (7), \
 every length 0..130 x 9 content patterns (all-equal, sorted, reversed, organ-pipe, few-distinct, random, runs, scramble, saw) \
 x 4 kinds x {enum, lower, UPPER, MiXeD, owned String} spellings x axis none / 0 / -1 on 1-D arrays, flat form on n-D shapes, \
+every axis in both spellings (k and k-rank) of every shape of rank<=4 with axis lengths 1..3 (+ rank 5, lanes of 35..130 (600 thorough) inside n-D arrays, \
+zero-length axes, axes outside the rank) for sort x 4 kinds, argsort, argmax/argmin x keepdims none/true/false, unique; \
+the lane lengths <= 1000 (2000) at which a merge pass meets a one-element right run; \
 NaN arm of argmax/argmin on f64 lanes over {0,1,NaN} of length<=4; + seeded random lanes of length 131..400 (quick) / ..2000 (thorough); \
 + unknown selector names. distinct = distinct case lines; non-trivial = lane of length>=2 not already strictly increasing" });
 }
